@@ -201,7 +201,11 @@ def handleTick : Handler := fun j a => do
       let promoted := nodes.toList.find? fun n => jStrOr n "host" "" == mk
       let okTarget := (sw.to == "" || mk == sw.to) && (sw.from_ == "" || mk != sw.from_)
       let writable := match promoted with | some n => !(jBoolOr n "ro" true) && !(jBoolOr n "is_replica" true) | none => false
-      if !(okTarget && writable) then a := a.violationSig "C06:succeeded-but-recorded-master-not-promoted-writable" j.compress
+      if !(okTarget && writable) then
+        a := a.violationSig "C06:succeeded-but-recorded-master-not-promoted-writable" j.compress
+        -- the same fact seen from C07: the request of an attempt that did not reach its end must stay in place for the next
+        -- manager (theorem `request_kept_until_terminal`); here it was removed and recorded as done
+        a := a.violationSig "C07:unfinished-attempt-recorded-as-finished-and-the-request-removed" j.compress
       if swPresentAfter then a := a.violationSig "C06:succeeded-but-request-still-pending" j.compress
   | _ => pure ()
   -- a request another initiator filed after this iteration had read the (empty) request key is pending afterwards, untouched
